@@ -12,11 +12,13 @@ PLANS = {
         "rule": ("scenario = (direction, frame body length, composition of the frame into raw recv/send "
                  "chunk sizes, optional fault {FIN,RST,timeout,EPIPE,send==0} at a byte position); directed set: "
                  "all compositions of the first 8 bytes (11 in thorough), first chunk 1..30, boundary lengths x chunk policies, "
-                 "every fault kind after every byte of small frames; plus seeded random scenarios. A run is "
+                 "every fault kind after every byte of small frames; two Socket objects used by two caller threads at once (162 "
+                 "directed + 4 % of the random runs; a seeded scheduler picks the thread that continues after every raw socket "
+                 "call); plus seeded random scenarios. A run is "
                  "non-trivial when the C12 oracle was evaluated; distinct = distinct (direction, trigger class, "
                  "fault/no fault, frame-size class) shapes"),
         "real": ["pycomm3.socket_.Socket"],
-        "stub": ["socket module (SimNet)", "peer (FramePeer)"],
+        "stub": ["socket module (SimNet)", "peer (FramePeer)", "thread scheduling (kernel.Baton: real threads, one running at a time)"],
         "assumptions": ["recv never returns bytes of two frames in one call (request/reply protocol)",
                         "termination bound: at most len(frame)+8 raw socket calls per receive()/send()"],
     },
